@@ -4,7 +4,7 @@ use crate::version::zerv::Zerv;
 
 impl fmt::Display for Zerv {
     fn fmt(&self, f: &mut fmt::Formatter<'_>) -> fmt::Result {
-        match ron::ser::to_string_pretty(self, ron::ser::PrettyConfig::default()) {
+        match Zerv::ron_options().to_string_pretty(self, ron::ser::PrettyConfig::default()) {
             Ok(ron_string) => write!(f, "{ron_string}"),
             Err(_) => write!(f, "Error serializing Zerv to RON"),
         }
